@@ -309,3 +309,4 @@ GENERATORS['C16'] = gc.gen_resources
 GENERATORS['C09'] = gc.gen_small_trees
 GENERATORS['C10'] = gc.gen_actions
 GENERATORS['C15'] = gc.gen_histories_c15
+GENERATORS['C02'] = gc.gen_trees
